@@ -438,7 +438,17 @@ def _net_run(pm, v):
         def send(self, d):
             self.sent.append(d)
 
-    s = NetSource("localhost", 0, "beast")
+    if v.get("src") == "rtl":
+        # the RTL-SDR source has its own copy of the forwarding code; made without hardware
+        import sys
+        import types
+        if "rtlsdr" not in sys.modules:
+            sys.modules["rtlsdr"] = types.ModuleType("rtlsdr")
+        from pyModeS.streamer.source import RtlSdrSource
+        s = object.__new__(RtlSdrSource)
+        s.reset_local_buffer()
+    else:
+        s = NetSource("localhost", 0, "beast")
     s.stop_flag = Flag()
     s.raw_pipe_in = Pipe()
     import random as _r
@@ -900,3 +910,114 @@ def _decodeloop_run(pm, v):
     finally:
         _time.time, _time.sleep = real_time, real_sleep
     return {"t": "loop", "v": events, "used": st["pos"]}
+
+
+# ---- the viewer (streamer/screen.py) on a scripted curses window: keys, tables from the pipe, update() ----
+@reg("screen.run")
+def _screen_run(pm, v):
+    import curses
+    import time as _time
+    import pyModeS.streamer.screen as smod
+
+    H, W = v["H"], 220
+    rows = list(range(3, H - 3))
+
+    class Stop(BaseException):
+        pass
+
+    KEYS = {"Home": curses.KEY_HOME, "NPage": curses.KEY_NPAGE, "PPage": curses.KEY_PPAGE, "Down": curses.KEY_DOWN,
+            "Up": curses.KEY_UP, "Enter": 10, "Esc": 27}
+    ATTR = {None: "normal", curses.A_STANDOUT: "standout", curses.A_BOLD: "bold"}
+
+    def icao_of(k):
+        return "%06X" % (0x400000 + 37 * k)
+
+    ids = {icao_of(k): k for k in range(1, 200)}
+
+    class Win:
+        def __init__(self):
+            self.text, self.attr = {}, {}
+
+        def border(self, *a):
+            pass
+
+        def addstr(self, r, c, text, attr=None):
+            if c == 1:
+                self.text[r], self.attr[r] = text, attr
+
+        def refresh(self):
+            pass
+
+        def clear(self):
+            self.text, self.attr = {}, {}
+
+        def getmaxyx(self):
+            return (H, W)
+
+        def move(self, y, x):
+            pass
+
+        def instr(self, y, x, n):
+            return (self.text.get(y, " " * W) + " " * W)[x - 1:x - 1 + n].encode()
+
+        def getch(self):
+            return feed()
+
+    win = Win()
+    scr = object.__new__(smod.Screen)
+    scr.screen, scr.y, scr.x, scr.offset, scr.acs, scr.lock_icao, scr.columns = win, 3, 1, 0, {}, None, list(smod.COLUMNS)
+    obs = []
+    steps = list(v["steps"])
+    st = {"i": 0, "pending": None}
+
+    def observe(a):
+        lk = scr.lock_icao
+        lock = 0 if lk is None else ids.get(lk, 1000 if not lk.strip() else 1001)
+        shown, hl = [], []
+        for r in rows:
+            t = win.text.get(r)
+            shown.append(0 if t is None or not t[:6].strip() else ids.get(t[:6], -1))
+            hl.append("none" if t is None else ATTR.get(win.attr.get(r), "other"))
+        obs.append({"a": a, "y": scr.y, "offset": scr.offset, "lock": lock, "shown": shown, "hl": hl, "n": len(scr.acs)})
+
+    def table(idl):
+        now = int(_time.time())
+        return {icao_of(k): {"call": "T%05d" % k, "lat": 52.0 + k / 7.0, "lon": -4.0 - k / 3.0, "alt": 1000 * k, "gs": 200.5, "tas": None,
+                             "ias": None, "mach": 0.7812345, "roc": -64, "trk": 359.98765, "hdg": None, "live": now} for k in idl}
+
+    def feed():
+        if st["pending"] is not None:
+            observe(st["pending"])
+            st["pending"] = None
+        while True:
+            if st["i"] >= len(steps):
+                raise Stop()
+            s = steps[st["i"]]
+            st["i"] += 1
+            if s["a"] == "Table":
+                scr.update_ac(table(s["acs"]))        # what Screen.run does with a table received from the aircraft pipe
+                observe("Table")
+            elif s["a"] == "Render":
+                scr.update()
+                observe("Render")
+            else:
+                st["pending"] = s["a"]
+                return KEYS[s["a"]]
+
+    real = smod.curses.is_term_resized
+    smod.curses.is_term_resized = lambda h, w: False
+    err = None
+    if v.get("init"):
+        scr.update_ac(table(v["init"]))          # the fixed-table configurations of ScreenSM start with the table loaded
+    try:
+        scr.kye_handling()
+    except Stop:
+        pass
+    except Exception as ex:  # noqa: BLE001
+        err = type(ex).__name__ + ": " + str(ex)[:100]
+    finally:
+        smod.curses.is_term_resized = real
+    out = {"t": "screen", "v": obs}
+    if err:
+        out["err"] = enc.text(err)
+    return out
